@@ -4,15 +4,18 @@ import Pike.Driver.Key
 import Pike.Driver.Loc
 import Pike.Driver.Codec
 import Pike.Driver.Resp
+import Pike.Driver.Sched
 open Pike.Driver
 
 structure St where
   disp : DispSt := {}
   resp : RespSt := {}
+  sched : SchedSt := {}
 
 def judgeLine (st : St) (line : String) : St × String :=
   match line.splitOn "\t" with
   | "fresh" :: rest => (st, judgeFresh rest)
+  | "sched" :: rest => let (d, v) := judgeSched st.sched rest; ({ st with sched := d }, v)
   | "resp" :: rest => let (d, v) := judgeResp st.resp rest; ({ st with resp := d }, v)
   | "codec" :: rest => (st, judgeCodec rest)
   | "loc" :: rest => (st, judgeLoc rest)
